@@ -514,6 +514,10 @@ def run(ctx) -> None:
     ok = bool(pc) and len(pc[0].args) >= 2 and source.src(pc[0].args[1]) == "self._concrete"
     ctx.ob("C07.R6-patch-before-store", pc[0] if pc else init, ok, "the variables are patched into the description that is then copied" if ok else
            "_patch_in_variable_files is applied to something other than self._concrete")
+    from checks.c04 import check_user_layer_every_platform
+    pvf = conf.func(CLS + "_patch_in_variable_files")
+    ctx.analysed(pvf)
+    check_user_layer_every_platform(ctx, pvf, "C07.R6-patch-before-store")
     ok = any(isinstance(n.ast.value, ast.Call) and last_attr(n.ast.value) == "copy" and "_concrete" in source.src(n.ast.value) for n in copyn)
     ctx.ob("C07.R6-patch-before-store", copyn[0].ast, ok, "the unreplicated description is a copy of the patched concrete" if ok else
            "self._unreplicated is no longer a copy of the patched self._concrete")
